@@ -5,6 +5,10 @@ homomorphism lemma `run_map_hom` and the dual-number theorem — no new inductio
 -/
 import OdlModel.Lemmas.Deriv
 import Mathlib.Analysis.Calculus.Deriv.Polynomial
+import Mathlib.Algebra.Polynomial.Div
+import Mathlib.Tactic.IntervalCases
+import Mathlib.Tactic.FieldSimp
+import Mathlib.Tactic.Linarith
 set_option linter.unusedSectionVars false
 namespace OdlModel.Deriv
 open Polynomial
@@ -68,5 +72,97 @@ theorem impl_hasDerivAt_line [DecidableEq ℝ] (i : Impl ℝ) (hwf : i.wf = true
   rw [e3] at h4
   have e4 : (fun s : ℝ => i.run (fun m => x m + s * d m) k) = fun s => P.eval s := funext h1
   rw [e4]; exact h4
+
+
+noncomputable def polyToTrunc3 (p : ℝ[X]) : Trunc3 ℝ := ⟨p.coeff 0, p.coeff 1, p.coeff 2⟩
+
+theorem mul_coeff_two' (p q : ℝ[X]) :
+    (p * q).coeff 2 = p.coeff 0 * q.coeff 2 + p.coeff 1 * q.coeff 1 + p.coeff 2 * q.coeff 0 := by
+  rw [coeff_mul]
+  have : Finset.antidiagonal 2 = {(0, 2), (1, 1), (2, 0)} := by decide
+  rw [this]
+  simp [Finset.sum_insert, add_assoc]
+
+theorem polyToTrunc3_hom : IsHom polyToTrunc3 where
+  add p q := by apply Trunc3.ext' <;> simp [polyToTrunc3]
+  mul p q := by
+    apply Trunc3.ext'
+    · simp [polyToTrunc3, mul_coeff_zero]
+    · simp [polyToTrunc3, mul_coeff_one, mul_coeff_zero]
+    · simp [polyToTrunc3, mul_coeff_two']
+  zero := by apply Trunc3.ext' <;> simp [polyToTrunc3]
+  one := by apply Trunc3.ext' <;> simp [polyToTrunc3, coeff_one]
+
+/-- The exact `O(h²)` rate of central differences for the executed model over `ℝ`. -/
+theorem impl_central_diff_rate [DecidableEq ℝ] (i : Impl ℝ) (hwf : i.wf = true) (x d : Vec ℝ)
+    (j : Impl ℝ) (hj : i.deriv x = some j) (k : Nat) :
+    ∃ Q : ℝ[X], ∀ h : ℝ, h ≠ 0 →
+      (2 * h)⁻¹ * (i.run (fun m => x m + h * d m) k - i.run (fun m => x m + (-h) * d m) k)
+        - j.run d k = h ^ 2 * Q.eval h := by
+  let Xp : Vec ℝ[X] := fun m => C (x m) + X * C (d m)
+  let Xm : Vec ℝ[X] := fun m => C (x m) + X * C (- d m)
+  let P : ℝ[X] := (i.map C).run Xp k
+  let M : ℝ[X] := (i.map C).run Xm k
+  have evalP : ∀ s : ℝ, i.run (fun m => x m + s * d m) k = P.eval s := by
+    intro s
+    have h := run_map_hom (evalHom s) (i.map C) Xp k
+    rw [map_map] at h
+    have e1 : (fun a : ℝ => (C a : ℝ[X]).eval s) = fun a => a := by funext a; simp
+    rw [e1, map_id'] at h
+    have e2 : (fun m => (Xp m).eval s) = fun m => x m + s * d m := by
+      funext m; simp [Xp]; ring
+    rw [e2] at h; exact h
+  have evalM : ∀ s : ℝ, i.run (fun m => x m + (-s) * d m) k = M.eval s := by
+    intro s
+    have h := run_map_hom (evalHom s) (i.map C) Xm k
+    rw [map_map] at h
+    have e1 : (fun a : ℝ => (C a : ℝ[X]).eval s) = fun a => a := by funext a; simp
+    rw [e1, map_id'] at h
+    have e2 : (fun m => (Xm m).eval s) = fun m => x m + (-s) * d m := by
+      funext m; simp [Xm]; ring
+    rw [e2] at h; exact h
+  -- coefficients 0, 1, 2 through the truncation to R[h]/(h³)
+  have cd := central_diff i hwf x d j hj k
+  have tP : polyToTrunc3 P = (i.map Trunc3.C).run (fun m => ⟨x m, d m, 0⟩) k := by
+    have h := run_map_hom polyToTrunc3_hom (i.map C) Xp k
+    rw [map_map] at h
+    have e1 : (fun a : ℝ => polyToTrunc3 (C a)) = Trunc3.C := by
+      funext a; apply Trunc3.ext' <;> simp [polyToTrunc3, Trunc3.C, coeff_C]
+    have e2 : (fun m => polyToTrunc3 (Xp m)) = fun m => (⟨x m, d m, 0⟩ : Trunc3 ℝ) := by
+      funext m; apply Trunc3.ext' <;> simp [polyToTrunc3, Xp, coeff_C, coeff_X]
+    rw [e1, e2] at h; exact h.symm
+  have tM : polyToTrunc3 M = (i.map Trunc3.C).run (fun m => ⟨x m, - d m, 0⟩) k := by
+    have h := run_map_hom polyToTrunc3_hom (i.map C) Xm k
+    rw [map_map] at h
+    have e1 : (fun a : ℝ => polyToTrunc3 (C a)) = Trunc3.C := by
+      funext a; apply Trunc3.ext' <;> simp [polyToTrunc3, Trunc3.C, coeff_C]
+    have e2 : (fun m => polyToTrunc3 (Xm m)) = fun m => (⟨x m, - d m, 0⟩ : Trunc3 ℝ) := by
+      funext m; apply Trunc3.ext' <;> simp [polyToTrunc3, Xm, coeff_C, coeff_X]
+    rw [e1, e2] at h; exact h.symm
+  obtain ⟨ha, ha', hb, hb', hc⟩ := cd
+  rw [← tP] at ha hb hc
+  rw [← tM] at ha' hb' hc
+  simp only [polyToTrunc3] at ha ha' hb hb' hc
+  -- R := P - M - 2 b X has vanishing coefficients 0, 1, 2
+  let Rp : ℝ[X] := P - M - C (2 * j.run d k) * X
+  have hdiv : X ^ 3 ∣ Rp := by
+    rw [X_pow_dvd_iff]
+    intro n hn
+    interval_cases n
+    · simp [Rp, ha, ha']
+    · simp [Rp, hb, hb']; ring
+    · simp [Rp, hc]
+  obtain ⟨Q, hQ⟩ := hdiv
+  refine ⟨C (1 / 2 : ℝ) * Q, fun h hh => ?_⟩
+  rw [evalP h, evalM h]
+  have e : P.eval h - M.eval h = 2 * j.run d k * h + h ^ 3 * Q.eval h := by
+    have := congrArg (fun p : ℝ[X] => p.eval h) hQ
+    simp only [Rp, eval_sub, eval_mul, eval_C, eval_X, eval_pow] at this
+    linarith
+  rw [e]
+  simp only [eval_mul, eval_C]
+  field_simp
+  ring
+
 
 end OdlModel.Deriv
